@@ -18,6 +18,12 @@ W(S, X, M, Q) == Leaf(S) \cup {[op |-> "pow", x |-> a, r |-> r] : a \in Leaf(S),
 D1All == W(AllIds, Exps, Mags, AllPrefs)
 D1s == W(Ids2, Exps2, Mags2, Prefs2)
 D2 == {[op |-> o, l |-> a, r |-> b] : o \in {"mul", "div"}, a \in D1s, b \in D1s}
+(* scaling an already scaled unit: by ONE, by the inverse factor (folds back to the unscaled unit), by another factor *)
+InvM(m) == [i \in 1..Len(m) |-> [b |-> m[i].b, e |-> <<-m[i].e[1], m[i].e[2]>>]]
+ScaleTwice == {[op |-> "scale", x |-> [op |-> "scale", x |-> a, m |-> m], m |-> m2] : a \in Leaf(Ids2), m \in Mags2, m2 \in Mags2 \cup {<<>>}}
+              \cup {[op |-> "scale", x |-> [op |-> "scale", x |-> a, m |-> m], m |-> InvM(m)] : a \in Leaf(Ids2), m \in Mags2}
+              \cup {[op |-> "scale", x |-> a, m |-> <<>>] : a \in Leaf(AllIds)}
+              \cup {[op |-> "scale", x |-> [op |-> "prefix", x |-> a, p |-> p], m |-> m2] : a \in Leaf(Ids2), p \in Prefs2, m2 \in {<<>>, <<BP(6, -1, 1)>>}}
 
 (* leaf keys and the exponent map over named units (property level: AC-equality of pure expressions) *)
 LeafKey(e) == IF e.op = "unit" THEN e.id ELSE e.p \o ":" \o e.x.id
@@ -32,7 +38,7 @@ PureNamed(e) == IsLeafLike(e) \/ (e.op \in {"mul", "div"} /\ PureNamed(e.l) /\ P
 AsSet(f) == {[b |-> k, n |-> f[k][1], d |-> f[k][2]] : k \in DOMAIN f}
 
 VARIABLES e
-Init == e \in D1All \cup D2
+Init == e \in D1All \cup D2 \cup ScaleTwice
 Next == UNCHANGED e
 Emit == PrintT(<<"CASE", ToJson([e |-> e, dim |-> AsSet(DenDim(e)), mag |-> AsSet(DenMag(e)),
                                  pure |-> PureNamed(e), named |-> IF PureNamed(e) THEN AsSet(NamedExp(e)) ELSE {},
